@@ -154,6 +154,12 @@ func (r *c06Rig) runAgree(cs *c06Case, c c06Conc, probe bool) (out c06Run) {
 	return out
 }
 
+// TestVerifC06Warm compiles and links the test binary while TLC is still running (build cache warm-up).
+func TestVerifC06Warm(t *testing.T) {
+	res := kit.NewResult()
+	res.Save(true)
+}
+
 func c06Workers() int {
 	w := runtime.GOMAXPROCS(0)
 	if w > 12 {
@@ -187,8 +193,8 @@ func TestVerifC06Replay(t *testing.T) {
 	// key share differ from hello to hello; the other layouts are fixed per signature and get fewer draws.
 	// Round A gives every case its first draws, rounds B (chrome/direct) and C (the rest) add the remainder
 	// and are cut, case by case, if the wall budget runs out (reported, never silently).
-	nChrome, nFixed, first := 20, 4, 2
-	budgetS := 150
+	nChrome, nFixed, first := 20, 2, 2
+	budgetS := 90
 	if kit.Thorough() {
 		nChrome, nFixed, first = 500, 40, 4
 		budgetS = 780
